@@ -36,9 +36,9 @@ func init() {
 		return clusterCheckSched(prop, tier, p, []string{"leader_present", "term_3plus", "restarted_node_up"}, untimedAssumptions, nil, sp)
 	}
 	checks["C07"] = func(prop, tier string) int {
-		p := []plan{{"rep3-d3", 135}, {"split3-d2", 30}, {"lead3-d2", 52}, {"elect3-d2", 30}, {"crash3-d2", 67}, {"oldlong3-d2", 37}}
+		p := []plan{{"rep3-d3", 135}, {"split3-d2", 30}, {"lead3-d2", 52}, {"elect3-d2", 30}, {"crash3-d2", 67}, {"oldlong3-d2", 37}, {"regainedelect5-d2", 40}}
 		if tier == "thorough" {
-			p = []plan{{"rep3-d4", 500}, {"split3-d4", 200}, {"lead3-d3", 300}, {"elect3-d4", 400}, {"crash3-d3", 300}, {"rep4-d3", 150}, {"oldlong3-d4", 400}, {"snap3-d3", 300}}
+			p = []plan{{"rep3-d4", 500}, {"split3-d4", 200}, {"lead3-d3", 300}, {"elect3-d4", 400}, {"crash3-d3", 300}, {"rep4-d3", 150}, {"oldlong3-d4", 400}, {"snap3-d3", 300}, {"regainedelect5-d3", 300}}
 		}
 		sp := []schedPlan{{"sched-rep3", 2, 60}, {"sched-elect3", 2, 60}}
 		if tier == "thorough" {
@@ -47,9 +47,9 @@ func init() {
 		return clusterCheckSched(prop, tier, p, []string{"leader_present", "two_leaders_different_terms", "op_acked"}, untimedAssumptions, nil, sp)
 	}
 	checks["C03"] = func(prop, tier string) int {
-		p := []plan{{"cli3-d2", 35}, {"rep3-d3", 135}, {"net3-d2", 30}, {"pending3-d2", 40}}
+		p := []plan{{"cli3-d2", 35}, {"rep3-d3", 135}, {"net3-d2", 30}, {"pending3-d2", 40}, {"regainedelect5-d2", 60}, {"stoprestart3-d2", 30}}
 		if tier == "thorough" {
-			p = []plan{{"cli3-d3", 200}, {"cli3-d4", 600}, {"rep3-d4", 500}, {"net3-d3", 120}, {"all2", 150}, {"rep4-d3", 150}}
+			p = []plan{{"cli3-d3", 200}, {"cli3-d4", 600}, {"rep3-d4", 500}, {"net3-d3", 120}, {"all2", 150}, {"rep4-d3", 150}, {"regainedelect5-d3", 400}, {"stoprestart3-d3", 200}}
 		}
 		sp := []schedPlan{{"sched-rep3", 2, 60}}
 		if tier == "thorough" {
